@@ -83,6 +83,17 @@ HIERARCHIES = {
     "specific-overrides-specific": [L("P1", "protocol", [], D("CP_Baudrate", "P1"), D("CP_Baudrate")),
                                     L("BV", "base-variant", ["P1"], D("CP_Baudrate", "P1")),
                                     L("EV", "ecu-variant", ["BV"], D("CP_Baudrate"))],
+    # two direct parents of different layer types define the same parameter: the more specific
+    # type (protocol < functional group < base variant) is the closer one, whatever the order of
+    # the references
+    "two-parent-types": [L("P1", "protocol", [], D("CP_Baudrate"), D(TABLE), D("CP_TesterPresentTime")),
+                         L("FG", "functional-group", ["P1"], D("CP_Baudrate"), D("CP_CanFuncReqId")),
+                         L("BV", "base-variant", ["FG", "P1"], D("CP_TesterPresentTime")),
+                         L("EV", "ecu-variant", ["P1", "BV"], D("CP_CanFuncReqId"))],
+    "two-parent-types-reordered": [L("P1", "protocol", [], D("CP_Baudrate"), D(TABLE)),
+                                   L("FG", "functional-group", ["P1"], D("CP_Baudrate"), D(TABLE)),
+                                   L("BV", "base-variant", ["P1", "FG"]),
+                                   L("EV", "ecu-variant", ["BV", "FG"], D("CP_CanFuncReqId"))],
     # CAN-FD parameters (concrete texts) next to the symbolic ones
     "can-fd": [L("P1", "protocol", [], D("CP_Baudrate"), D("CP_CANFDBaudrate"), D(TABLE),
                  D(FDLEN, fd="TX_DL=8")),
@@ -93,6 +104,42 @@ HIERARCHIES = {
     "no-can": [L("P1", "protocol", [], D("CP_DoIPLogicalGatewayAddress"), D("CP_TesterPresentTime")),
                L("EV", "ecu-variant", ["P1"])],
 }
+
+
+def placements(cp):
+    """every placement of parameter cp along the chain P1 -> FG -> BV -> EV (plus a second protocol
+    P2 above BV): per layer absent / generic / qualified for P1 / both; omitted value on one of them"""
+    import itertools
+    out = {}
+    opts = ("-", "g", "s", "gs", "o")  # o: generic definition with omitted value
+    for combo in itertools.product(opts, repeat=4):
+        if all(c == "-" for c in combo):
+            continue
+        layers = []
+        for (name, typ, parents), c in zip((("P1", "protocol", []), ("FG", "functional-group", ["P1"]),
+                                            ("BV", "base-variant", ["FG", "P2"]),
+                                            ("EV", "ecu-variant", ["BV"])), combo):
+            defs = []
+            if "g" in c:
+                defs.append(D(cp))
+            if "s" in c:
+                defs.append(D(cp, "P1"))
+            if c == "o":
+                defs.append(D(cp, omit=(True if cp != TABLE else ("CP_CanPhysReqId", "CP_CanRespUSDTId"))))
+            layers.append(L(name, typ, parents, *defs))
+        layers.insert(1, L("P2", "protocol", []))
+        out[f"place-{cp}-" + "".join(f"[{c}]" for c in combo)] = layers
+    return out
+
+
+GENERATED = {}
+QUICK_PARAMS = ("CP_Baudrate", TABLE, "CP_TesterPresentTime")
+for _cp in SIMPLE + [TABLE]:
+    GENERATED.update(placements(_cp))
+
+
+def hierarchy(name):
+    return HIERARCHIES[name] if name in HIERARCHIES else GENERATED[name]
 
 
 # ---------------------------------------------------------------------------
@@ -107,7 +154,9 @@ def ref_available(hier, name):
     per parameter and protocol"""
     layer = [x for x in hier if x["name"] == name][0]
     out = {}
-    for p in layer["parents"]:
+    rank = {"protocol": 1, "functional-group": 2, "base-variant": 3, "ecu-variant": 4}
+    typ = {x["name"]: x["type"] for x in hier}
+    for p in sorted(layer["parents"], key=lambda n: rank[typ[n]]):  # most specific parent last
         for k, v in ref_available(hier, p).items():
             out[k] = v
     for i, d in enumerate(layer["defs"]):
@@ -149,7 +198,7 @@ def _text(sx, n):
 
 def run_resolve(sx, cfg, env):
     from catalogue import hier as H
-    hier = HIERARCHIES[cfg["hier"]]
+    hier = hierarchy(cfg["hier"])
     # symbolic contents: one number per definition (and per sub-value), one per default
     defaults = {n: sx.int(f"default.{n}", 0, (1 << 32) - 1) for n in SIMPLE}
     subdefaults = {n: sx.int(f"default.{TABLE}.{n}", 0, (1 << 32) - 1) for n in SUBS}
@@ -207,6 +256,10 @@ def run_resolve(sx, cfg, env):
                            "lookup-returns-a-visible-definition")
             else:
                 sx.require(g is inst[t], "lookup-prefers-the-protocol-specific-definition")
+            if proto is not None:
+                # the protocol may be given as the Protocol object as well as by name
+                g2 = layer.get_comparam(cp, protocol=h["layers"][proto])
+                sx.require(g2 is g, "lookup-by-protocol-object-equals-lookup-by-name")
 
         # (3) typed accessors: exactly the numeric content of the selected definition
         def expected(cp, sub):
@@ -238,8 +291,14 @@ def run_resolve(sx, cfg, env):
                 # microseconds -> seconds: the binary64 quotient, or any value within 2^-50 of it
                 ef = core.tofloat(e) if sx.sym else float(e)
                 q = ef / 1e6
-                tol = q * (2.0 ** -50)
-                sx.require(s_and(r >= q - tol, r <= q + tol), f"{meth}:microseconds-to-seconds")
+                if sx.sym and isinstance(r, core.SymFloat) and isinstance(q, core.SymFloat) and \
+                        r.e.eq(q.e):
+                    # the very same term (the binary64 quotient of the content by 1e6): equal by
+                    # reflexivity, no floating-point query needed
+                    sx.require(True, f"{meth}:microseconds-to-seconds")
+                else:
+                    tol = q * (2.0 ** -50)
+                    sx.require(s_and(r >= q - tol, r <= q + tol), f"{meth}:microseconds-to-seconds")
 
         # (4) CAN-FD texts (concrete)
         t = ref_lookup(hier, cfg["layer"], FDLEN, proto)
@@ -272,7 +331,16 @@ STUBS = ["int/float/str shims: int()/float() of the decimal text of a symbolic n
 
 
 def configs(tier, seed):
+    import random
     out = []
+    gen = sorted(GENERATED)
+    if tier == "quick":
+        gen = [g for g in gen if any(g.startswith(f"place-{q}-") for q in QUICK_PARAMS)]
+    for name in gen:
+        for layer in ("BV", "EV"):
+            for pr in (None, "P1", "P2"):
+                out.append({"id": f"resolve/{name}/{layer}/{pr or 'any'}", "harness": "resolve",
+                            "hier": name, "layer": layer, "protocol": pr, "build": {}})
     for name, hier in HIERARCHIES.items():
         protos = [None] + [x["name"] for x in hier if x["type"] == "protocol"]
         for layer in hier:
@@ -282,14 +350,19 @@ def configs(tier, seed):
     return out
 
 
-BOUNDS = {"quick": f"{len(HIERARCHIES)} hierarchies (1-2 protocols, functional group, base and ECU variant; generic "
+BOUNDS = {"quick": f"all placements of three parameters (see thorough) + {len(HIERARCHIES)} hand-written hierarchies (1-2 protocols, functional group, base and ECU variant; generic "
                    "and protocol-qualified definitions; omitted values and sub-values), every layer x every "
                    "protocol query; every content and every default an arbitrary 32-bit number",
-          "thorough": "same catalogue (the value dimension is already complete at 32 bits)"}
+          "thorough": "ALL placements of a parameter along the chain protocol -> functional group -> base "
+                      "variant -> ECU variant with a second protocol: per layer absent / generic / "
+                      "protocol-qualified / both / generic with omitted value (624 hierarchies per parameter; "
+                      "quick: for one simple, one complex and one time parameter; thorough: for all ten), "
+                      "queried from the base and the ECU variant for no protocol and each protocol"}
 ASSUMPTIONS = [
     "contents are non-negative decimal numerals below 2^32 (what ODX stores for ids, rates, addresses, times)",
-    "definitions of the same parameter and protocol in two parents of equal distance are outside the "
-    "catalogue: the statement only orders closer against farther layers",
+    "of two direct parents the one of the more specific layer type (protocol < functional group < base "
+    "variant) is the closer one; the same parameter and protocol in two parents of the SAME type is outside "
+    "the catalogue",
     "a look-up without protocol that finds several definitions may return any of them (the statement "
     "speaks about look-ups by name AND protocol)",
     "CP_CANFDTxMaxDataLength texts are concrete (regular expression on the text)",
